@@ -67,6 +67,7 @@ class Path(object):
         self.result = None
         self.exception = None
         self.uncertain = False  # an 'unknown' feasibility answer was met
+        self.choices = []
         self.witness = None     # input values of a model of the complete hypotheses (set by Explorer(witness=True))
         self.final_check = None
         self.decisions = []     # trace of decisions (choices)
@@ -147,6 +148,7 @@ class Explorer(object):
             finally:
                 _CUR = prev
             self._path.decisions = [d.choice for d in self._trace]
+            self._path.choices = [d.choice for d in self._trace if d.kind == 'choose']
             if not aborted and not frontier_hit and self.witness and self._path.exception is None:
                 self._final_witness()
             if frontier_hit:
@@ -380,6 +382,105 @@ def is_sym(x):
 
 def is_nonfinite(x):
     return isinstance(x, float) and (x != x or x in (_math.inf, -_math.inf))
+
+
+class ConcreteReplay(Explorer):
+    """Re-execution of a harness run at the concrete values of a counterexample model.
+
+    Every symbol is the exact rational constant of the model (missing ones get a default), ``choose`` decisions are
+    those recorded on the failing path, every other decision must fold to a constant (no solver is involved).
+    Obligations and axioms are evaluated by constant folding; the result lists the obligations that fail.
+    """
+
+    def __init__(self, model, choices, default=fractions.Fraction(1, 2), pow_uf=False):
+        Explorer.__init__(self, prune=False, pow_uf=pow_uf)
+        self.model = dict(model)
+        self.choices = list(choices)
+        self.default = default
+        self.failed = []
+        self.broken_axioms = []
+        self.undecided = []
+
+    def _value(self, name, integer=False):
+        v = self.model.get(name, self.default)
+        try:
+            f = fractions.Fraction(v)
+        except (TypeError, ValueError):
+            f = self.default
+        return z3.IntVal(int(f)) if integer else realval(f)
+
+    def real(self, name):
+        return SymReal(self._value(name))
+
+    def fresh_real(self, base="r"):
+        return SymReal(self._value(self.fresh_name(base)))
+
+    def int(self, name, lo=None, hi=None):
+        return SymInt(self._value(name, integer=True))
+
+    def _fold(self, cond):
+        s = z3.simplify(cond)
+        if z3.is_true(s):
+            return True
+        if z3.is_false(s):
+            return False
+        return None
+
+    def axiom(self, cond):
+        r = self._fold(_z3bool(cond))
+        if r is False:
+            self.broken_axioms.append(str(cond)[:120])
+
+    def assume(self, cond):
+        r = self._fold(_z3bool(cond))
+        if r is False:
+            self.broken_axioms.append(str(cond)[:120])
+            raise PathAbort()
+
+    def oblige(self, name, cond, **info):
+        r = self._fold(_z3bool(cond))
+        if r is False:
+            self.failed.append(name)
+        elif r is None:
+            self.undecided.append(name)
+
+    def decide(self, cond):
+        r = self._fold(cond)
+        if r is None:
+            self.undecided.append("decision:" + str(cond)[:80])
+            return True
+        return r
+
+    def decide_value(self, term, limit=64):
+        s = z3.simplify(term)
+        if z3.is_int_value(s):
+            return s.as_long()
+        self.undecided.append("value:" + str(term)[:80])
+        return 0
+
+    def choose(self, n, label=None):
+        return self.choices.pop(0) if self.choices else 0
+
+    def replay(self, fn):
+        global _CUR
+        self._path = Path()
+        self._names = itertools.count()
+        self._inputs = []
+        self._solver = z3.Solver()
+        prev = _CUR
+        _CUR = self
+        exc = None
+        try:
+            try:
+                fn(self)
+            except PathAbort:
+                pass
+            except Exception as e:  # noqa
+                exc = e
+        finally:
+            _CUR = prev
+        return {"failed": self.failed, "broken_axioms": self.broken_axioms, "undecided": self.undecided,
+                "exception": exc}
 
 
 class SymBool(object):
